@@ -286,6 +286,14 @@ fn handle(ctx: &mut rink_core::Context, req: &J) -> J {
                    "lookup": ctx.lookup(name).map(|n| out_number(&n)),
                    "canonicalize": ctx.canonicalize(name)})
         }),
+        "canon_roundtrip" => guarded(|| {
+            let name = req["name"].as_str().unwrap();
+            let canon = ctx.canonicalize(name);
+            json!({"outcome": "ok",
+                   "lookup": ctx.lookup(name).map(|n| out_number(&n)),
+                   "canonicalize": canon,
+                   "lookup_canon": canon.as_ref().and_then(|c| ctx.lookup(c)).map(|n| out_number(&n))})
+        }),
         "dump_prefixes" => guarded(|| {
             let v: Vec<J> = ctx.registry.prefixes.iter().map(|(k, v)| json!([k, out_numeric(v)])).collect();
             json!({"outcome": "ok", "prefixes": v})
